@@ -357,6 +357,11 @@ static int gnutls_verify_sha_pem(jwt_t *jwt, const char *head,
 	case JWT_ALG_ES256K:
 	case JWT_ALG_ES384:
 	case JWT_ALG_ES512:
+		/* The r||s string must be exactly twice the size of the
+		 * key's field, nothing shorter or longer. */
+		if (sig_len != 2 * (int)((jwt->key->bits + 7) / 8))
+			VERIFY_ERROR("ECDSA mismatch with sig len");
+
 		/* XXX Gotta be a better way. */
 		if (sig_len == 64) {
 			r.size = 32;
